@@ -43,11 +43,15 @@ TreesTo(d) == IF d = 0 THEN T0 ELSE Grow(TreesTo(d - 1))
 
 \* ---- tokens and concrete leaves (the same text scheme as Parser!TokVal / harness tokVal) ----
 TokVal(kind, i) ==
-  CASE kind = "word"   -> IF i % 3 = 1 THEN "w*" \o ToString(i) ELSE "w" \o ToString(i)       \* typed w\*1: an escaped wildcard
-    [] kind = "quoted" -> CASE i % 4 = 1 -> "q*" \o ToString(i)                                  \* "q*1" - not a pattern
-                            [] i % 4 = 2 -> "q " \o ToString(i)
-                            [] i % 4 = 3 -> "/q" \o ToString(i) \o "/"                            \* "/q3/" - not a regexp
-                            [] OTHER     -> ToString(i)                                          \* "4" - not a number
+  CASE kind = "word"   -> CASE i % 4 = 1 -> "w*" \o ToString(i)                                  \* typed w\*1: an escaped wildcard
+                            [] i % 4 = 2 -> "w" \o ToString(i) \o ":"                          \* typed w2\: : ends in an escaped colon
+                            [] i % 4 = 3 -> "w(" \o ToString(i)                                  \* typed w\(3: an escaped parenthesis
+                            [] OTHER     -> "w" \o ToString(i)
+    [] kind = "quoted" -> CASE i % 5 = 1 -> "q*" \o ToString(i)                                  \* "q*1" - not a pattern
+                            [] i % 5 = 2 -> "q " \o ToString(i)
+                            [] i % 5 = 3 -> "/q" \o ToString(i) \o "/"                            \* "/q3/" - not a regexp
+                            [] i % 5 = 4 -> "it's " \o ToString(i)                               \* "it's 4" - the other quote character inside
+                            [] OTHER     -> ToString(i)                                          \* "5" - not a number
     [] kind = "wild"   -> IF i % 2 = 0 THEN "w" \o ToString(i) \o "\\\\*" ELSE "w" \o ToString(i) \o "*"   \* w2\\* : an escaped backslash, then a wildcard
     [] kind = "star"   -> "*"
     [] kind = "regexp" -> "/r" \o ToString(i) \o "/"
@@ -150,6 +154,8 @@ LeafForm(k, p, vp) ==
     [] k = "frange"   -> FieldRange(p, "LSQUARE", "int", "int", "RSQUARE")
     [] k = "fxrange"  -> FieldRange(p, "LCURLY", "word", "star", "RCURLY")
     [] k = "fxirange" -> FieldRange(p, "LCURLY", "int", "int", "RCURLY")
+    [] k = "fmixrange" -> FieldRange(p, "LSQUARE", "int", "int", "RCURLY")      \* [1 TO 5} - mixed brackets (accepted; not inclusive)
+    [] k = "fmixrange2" -> FieldRange(p, "LCURLY", "word", "word", "RSQUARE")
     [] k = "fmrange"  -> FieldRange(p, "LSQUARE", "star", "float", "RSQUARE")
     [] k = "flist"    -> FieldList(p, 2, vp)
     [] k = "flist3"   -> FieldList(p, 3, vp)
